@@ -7,6 +7,8 @@ import (
 	"sync"
 
 	"github.com/rogpeppe/go-internal/testscript"
+
+	"verif/vlib"
 )
 
 // Style selects how FailNow/Skip leave the test function.
@@ -35,6 +37,7 @@ type RecT struct {
 	Failed   bool
 	Skipped  bool
 	Finished bool
+	EndMono  int64 // CLOCK_MONOTONIC when the subtest function was left
 	Subs     []*RecT
 
 	parent  *RecT
@@ -111,6 +114,7 @@ func (t *RecT) Run(name string, f func(testscript.T)) {
 		defer func() {
 			sub.mu.Lock()
 			sub.Finished = true
+			sub.EndMono = vlib.MonoNow()
 			sub.mu.Unlock()
 		}()
 		{
